@@ -568,6 +568,46 @@ def family_programs():
                     ("for", ["x"], what, itk, ("seq", [body])),
                     V("g")])), True),
                 ("list", [("call", ("call", V("mk"), []), []), V("x")])])))
+    # the variables of a comprehension are its own: a function of the
+    # enclosing scope that reads a same-named variable keeps reading the
+    # enclosing one, which is unchanged (and still the only one) afterwards
+    for ckind in ("list", "set", "map"):
+        for mode in ("single", "product", "parallel"):
+            for shadow in (0, 1):
+                if mode == "single" and shadow == 1:
+                    continue
+                if ckind == "map" and mode != "single":
+                    continue      # map comprehensions have one source
+                names = ["c", "d"]
+                names[shadow] = "scale"
+                cl = [(names[0], None, ("list", [L(1), L(2)]))]
+                arg = V(names[0])
+                if mode != "single":
+                    cl.append((names[1], None, ("list", [L(10), L(20)])))
+                    arg = ("bin", "+", V(names[0]), V(names[1]))
+                val = ("call", V("boost"), [("pos", arg)])
+                if ckind == "map":
+                    val = (arg, val)
+                progs.append(("comprehension-scope", ("seq", [
+                    ("def", "scale", L(100)),
+                    ("def", "boost", ("fn", [("v", None, False)],
+                                      ("bin", "+", V("v"), V("scale"))),
+                     True),
+                    ("def", "wrap", ("fn", [], ("seq", [
+                        ("def", "r", ("comp", ckind, val, cl, mode, None)),
+                        ("list", [V("r"), V("scale")])])), True),
+                    ("list", [("comp", ckind, val, cl, mode, None),
+                              V("scale"), ("call", V("wrap"), []),
+                              V("scale")])])))
+    # every construction runs the constructor on the new instance: two
+    # instances of one class keep their own fields
+    progs.append(("class-instances", ("raw", (
+        "do def class Counter do "
+        "def _init_(self, n, step = 1) do self->n = n; self->step = step; "
+        "end; def inc(self) do self->n += self->step; self->n end end; "
+        "def a = new(Counter, 10); def b = new(Counter, 100, 5); "
+        "[a->inc(), b->inc(), a->inc(), a->step, b->step, 'n' in Counter, "
+        "a->n, b->n] end"), [11, 105, 12, 1, 5, False, 12, 105])))
     # a built-in name defined by the program after a function that uses it
     # was first called: the function sees the new binding from then on
     progs.append(("rebind-builtin", ("seq", [
